@@ -1,4 +1,588 @@
-import MV.Model.Render
+/-
+C03 — rendering a score yields exactly its sounding notes at the right times.
+
+Model: `MV/Model/Render.lean` (note matrix of `to_midi.py`, `matrix_to_events`).
+Main theorem `render_eq_denote`: the global pipeline of the code (all parts' rows in one matrix,
+a stable sort by onset, one loop with a per-track dictionary, a filter and a second sort) equals
+the part-by-part denotation; the lemmas before it say what a part denotes (one row per note at the
+running sums of durations, chords following one another for their longest part, a note extended by
+the continuations that directly follow it, rests / orphan continuations / absent parts silent,
+velocity = amplitude, seconds = quarter notes × 60 / tempo).
+-/
+import MV.Lemmas.Events
+import Mathlib.Tactic.Ring
+import Mathlib.Tactic.Linarith
+import Mathlib.Algebra.Order.Field.Rat
 namespace MV.C03
-theorem placeholder : True := trivial
+open MV
+
+theorem foldl_add (l : List Rat) (a : Rat) : l.foldl (· + ·) a = a + l.foldl (· + ·) 0 := by
+  induction l generalizing a with
+  | nil => simp
+  | cons x xs ih => simp only [List.foldl_cons]; rw [ih (a + x), ih (0 + x)]; ring
+
+theorem sumRat_cons (a : Rat) (l : List Rat) : sumRat (a :: l) = a + sumRat l := by
+  unfold sumRat; simp only [List.foldl_cons]; rw [foldl_add]; ring
+
+theorem sumRat_nil : sumRat [] = 0 := rfl
+
+def onsets : List Rat → Rat → List Rat
+  | [], _ => []
+  | d :: ds, t => t :: onsets ds (t + d)
+
+theorem sumRat_nonneg (l : List Rat) (h : ∀ d ∈ l, 0 ≤ d) : 0 ≤ sumRat l := by
+  induction l with
+  | nil => simp [sumRat_nil]
+  | cons a t ih =>
+    rw [sumRat_cons]
+    have := ih (fun d hd => h d (by simp [hd]))
+    have := h a (by simp)
+    linarith
+
+/-- onsets of non-negative durations are non-decreasing and stay within `[t, t + total]` -/
+theorem onsets_bounds (ds : List Rat) (t : Rat) (h : ∀ d ∈ ds, 0 ≤ d) :
+    (onsets ds t).Pairwise (· ≤ ·) ∧ ∀ x ∈ onsets ds t, t ≤ x ∧ x ≤ t + sumRat ds := by
+  induction ds generalizing t with
+  | nil => simp [onsets]
+  | cons d r ih =>
+    have hd := h d (by simp)
+    obtain ⟨i1, i2⟩ := ih (t + d) (fun x hx => h x (by simp [hx]))
+    have hs := sumRat_nonneg r (fun x hx => h x (by simp [hx]))
+    simp only [onsets, sumRat_cons]
+    constructor
+    · apply List.pairwise_cons.mpr
+      refine ⟨?_, i1⟩
+      intro x hx
+      have := (i2 x hx).1
+      linarith
+    · intro x hx
+      rcases List.mem_cons.mp hx with rfl | hx
+      · constructor <;> linarith
+      · have := i2 x hx
+        constructor <;> linarith
+
+/-- **a chord lasts as long as its longest part** -/
+theorem chord_dur_is_max (c : Chord) :
+    (∀ p ∈ c.parts, melodyDuration p.2 ≤ c.dur) ∧
+    (c.parts = [] → c.dur = 0) ∧ (c.parts ≠ [] → ∃ p ∈ c.parts, c.dur = melodyDuration p.2) := by
+  unfold Chord.dur
+  have key : ∀ (l : List Rat) (d : Rat), (d ≤ l.foldl max d ∧ ∀ x ∈ l, x ≤ l.foldl max d) ∧
+      (l.foldl max d = d ∨ l.foldl max d ∈ l) := by
+    intro l
+    induction l with
+    | nil => intro d; simp
+    | cons a t ih =>
+      intro d
+      simp only [List.foldl_cons]
+      obtain ⟨⟨h1, h2⟩, h3⟩ := ih (max d a)
+      refine ⟨⟨le_trans (le_max_left d a) h1, ?_⟩, ?_⟩
+      · intro x hx
+        rcases List.mem_cons.mp hx with rfl | hx
+        · exact le_trans (le_max_right d x) h1
+        · exact h2 x hx
+      · rcases h3 with h3 | h3
+        · rw [h3]
+          rcases max_choice d a with hm | hm
+          · left; exact hm
+          · right; rw [hm]; simp
+        · right; exact List.mem_cons_of_mem _ h3
+  cases hp : c.parts with
+  | nil => simp
+  | cons p ps =>
+    simp only [List.map_cons]
+    obtain ⟨⟨h1, h2⟩, h3⟩ := key (ps.map (fun p => melodyDuration p.2)) (melodyDuration p.2)
+    refine ⟨?_, by simp, fun _ => ?_⟩
+    · intro q hq
+      rcases List.mem_cons.mp hq with rfl | hq
+      · exact h1
+      · exact h2 _ (List.mem_map_of_mem hq)
+    · rcases h3 with h3 | h3
+      · exact ⟨p, by simp, h3⟩
+      · obtain ⟨q, hq, hqe⟩ := List.mem_map.mp h3
+        exact ⟨q, List.mem_cons_of_mem _ hq, hqe.symm⟩
+theorem noteToRow_fields (n : Note) (c : Chord) (tr : Nat) (t : Rat) (last : Option Int) (row : Row) (l' : Option Int)
+    (h : noteToRow n c tr t last = .ok (row, l')) :
+    row.offset = t ∧ row.dur = n.dur ∧ row.vel = n.amp ∧ row.track = tr ∧
+    row.silence = (n.kind == .r || (n.kind == .l && last.isNone)) ∧
+    row.cont = (n.kind == .l && last.isSome) ∧
+    l' = (if !(row.silence || row.cont) then some row.pitch else last) ∧
+    (∃ p, noteToPitch c n (last.getD 0) = .ok p ∧ row.pitch = p.getD 0) := by
+  unfold noteToRow at h
+  cases hp : noteToPitch c n (last.getD 0) with
+  | error e => simp [hp, bind, Except.bind] at h
+  | ok p =>
+    simp only [hp, bind, Except.bind, pure, Except.pure, Except.ok.injEq, Prod.mk.injEq] at h
+    obtain ⟨h1, h2⟩ := h
+    subst h1
+    refine ⟨rfl, rfl, rfl, rfl, rfl, rfl, h2.symm, p, rfl, rfl⟩
+
+/-- **one row per note; onsets are the running sums of the durations; duration, velocity
+and track are the note's** -/
+theorem melody_rows (m : Melody) (c : Chord) (tr : Nat) (t : Rat) (last : Option Int)
+    (rows : List Row) (l' : Option Int) (h : melodyToRows m c tr t last = .ok (rows, l')) :
+    rows.map (·.offset) = onsets (m.map (·.dur)) t ∧ rows.map (·.dur) = m.map (·.dur) ∧
+    rows.map (·.vel) = m.map (·.amp) ∧ (∀ r ∈ rows, r.track = tr) := by
+  induction m generalizing t last rows l' with
+  | nil =>
+    simp only [melodyToRows, pure, Except.pure, Except.ok.injEq, Prod.mk.injEq] at h
+    obtain ⟨rfl, _⟩ := h
+    simp [onsets]
+  | cons n ns ih =>
+    unfold melodyToRows at h
+    cases h1 : noteToRow n c tr t last with
+    | error e => simp [h1, bind, Except.bind] at h
+    | ok v =>
+      obtain ⟨row, l1⟩ := v
+      cases h2 : melodyToRows ns c tr (t + n.dur) l1 with
+      | error e => simp [h1, h2, bind, Except.bind] at h
+      | ok w =>
+        obtain ⟨rs, l2⟩ := w
+        simp only [h1, h2, bind, Except.bind, pure, Except.pure, Except.ok.injEq, Prod.mk.injEq] at h
+        obtain ⟨rfl, _⟩ := h
+        obtain ⟨f1, f2, f3, f4, _⟩ := noteToRow_fields n c tr t last row l1 h1
+        obtain ⟨i1, i2, i3, i4⟩ := ih (t + n.dur) l1 rs l2 h2
+        refine ⟨?_, ?_, ?_, ?_⟩
+        · simp [onsets, f1, i1]
+        · simp [f2, i2]
+        · simp [f3, i3]
+        · intro r hr
+          rcases List.mem_cons.mp hr with rfl | hr
+          · exact f4
+          · exact i4 r hr
+
+def NonNeg (s : Score) : Prop := ∀ c ∈ s, ∀ p ∈ c.parts, ∀ n ∈ p.2, 0 ≤ n.dur
+
+theorem mem_of_lookup {α β : Type} [BEq α] [LawfulBEq α] (l : List (α × β)) (k : α) (v : β)
+    (h : l.lookup k = some v) : (k, v) ∈ l := by
+  induction l with
+  | nil => simp [List.lookup] at h
+  | cons p rest ih =>
+    simp only [List.lookup] at h
+    by_cases hk : k = p.1
+    · subst hk
+      simp only [beq_self_eq_true, Option.some.injEq] at h
+      subst h; simp
+    · have : (k == p.1) = false := by simpa using hk
+      simp only [this] at h
+      exact List.mem_cons_of_mem _ (ih h)
+
+/-- rows of one track: in onset order (for non-negative durations), all on that track,
+none before the start time -/
+theorem track_rows_sorted (track : String) (idx : Nat) (s : Score) (t : Rat) (last : Option Int)
+    (rows : List Row) (hnn : NonNeg s) (h : trackRows track idx s t last = .ok rows) :
+    SortedBy (·.offset) rows ∧ ∀ r ∈ rows, t ≤ r.offset ∧ r.track = idx := by
+  induction s generalizing t last rows with
+  | nil =>
+    simp only [trackRows, pure, Except.pure, Except.ok.injEq] at h
+    subst h; simp [SortedBy]
+  | cons c cs ih =>
+    have hnn' : NonNeg cs := fun c' hc' => hnn c' (by simp [hc'])
+    unfold trackRows at h
+    cases hl : c.parts.lookup track with
+    | none =>
+      simp only [hl] at h
+      obtain ⟨i1, i2⟩ := ih (t + c.dur) none rows hnn' h
+      refine ⟨i1, fun r hr => ⟨?_, (i2 r hr).2⟩⟩
+      have hd : 0 ≤ c.dur := by
+        obtain ⟨_, h0, hne⟩ := chord_dur_is_max c
+        by_cases hp : c.parts = []
+        · rw [h0 hp]
+        · obtain ⟨p, hp1, hp2⟩ := hne hp
+          rw [hp2]; unfold melodyDuration
+          apply sumRat_nonneg
+          intro d hdm
+          obtain ⟨n, hn, rfl⟩ := List.mem_map.mp hdm
+          exact hnn c (by simp) p hp1 n hn
+      have := (i2 r hr).1
+      linarith
+    | some part =>
+      simp only [hl] at h
+      cases h1 : melodyToRows part c idx t last with
+      | error e => simp [h1, bind, Except.bind] at h
+      | ok v =>
+        obtain ⟨rc, l1⟩ := v
+        cases h2 : trackRows track idx cs (t + c.dur) l1 with
+        | error e => simp [h1, h2, bind, Except.bind] at h
+        | ok rest =>
+          simp only [h1, h2, bind, Except.bind, pure, Except.pure, Except.ok.injEq] at h
+          subst h
+          obtain ⟨m1, _, _, m4⟩ := melody_rows part c idx t last rc l1 h1
+          obtain ⟨i1, i2⟩ := ih (t + c.dur) l1 rest hnn' h2
+          have hmem : (track, part) ∈ c.parts := mem_of_lookup _ _ _ hl
+          have hpn : ∀ d ∈ part.map (·.dur), 0 ≤ d := by
+            intro d hd
+            obtain ⟨n, hn, rfl⟩ := List.mem_map.mp hd
+            exact hnn c (by simp) _ hmem n hn
+          obtain ⟨o1, o2⟩ := onsets_bounds (part.map (·.dur)) t hpn
+          have hle : melodyDuration part ≤ c.dur := (chord_dur_is_max c).1 _ hmem
+          have hrc : ∀ r ∈ rc, t ≤ r.offset ∧ r.offset ≤ t + c.dur := by
+            intro r hr
+            have : r.offset ∈ onsets (part.map (·.dur)) t := by rw [← m1]; exact List.mem_map_of_mem hr
+            have := o2 _ this
+            unfold melodyDuration at hle
+            constructor <;> linarith
+          constructor
+          · unfold SortedBy
+            apply List.pairwise_append.mpr
+            refine ⟨?_, i1, ?_⟩
+            · rw [← m1, List.pairwise_map] at o1; exact o1
+            · intro a ha b hb
+              have := (hrc a ha).2
+              have := (i2 b hb).1
+              linarith
+          · intro r hr
+            rcases List.mem_append.mp hr with hr | hr
+            · exact ⟨(hrc r hr).1, m4 r hr⟩
+            · have hd : 0 ≤ c.dur := by
+                have := sumRat_nonneg _ hpn
+                unfold melodyDuration at hle; linarith
+              have := (i2 r hr).1
+              exact ⟨by linarith, (i2 r hr).2⟩
+/-- events of one track: fold of `stepTrack` from the empty state -/
+def trackEvents (tempo : Rat) (rs : List Row) : List Event := ((rs.foldl (stepTrack tempo) none)).getD []
+
+theorem lookup_of_nodup (m : EvMap) (h : (keysOf m).Nodup) :
+    m = (keysOf m).map (fun t => (t, (m.get t).getD [])) := by
+  induction m with
+  | nil => rfl
+  | cons p rest ih =>
+    have hn : p.1 ∉ keysOf rest := (List.nodup_cons.mp h).1
+    have hr := ih (List.nodup_cons.mp h).2
+    simp only [keysOf, List.map_cons, EvMap.get, List.lookup, beq_self_eq_true, Option.getD_some]
+    congr 1
+    conv => lhs; rw [hr]
+    simp only [keysOf, List.map_map]
+    apply List.map_congr_left
+    intro q hq
+    have : ¬ q.1 = p.1 := by
+      intro hh; apply hn; rw [← hh]; exact List.mem_map_of_mem hq
+    have hb : (q.1 == p.1) = false := by simpa using this
+    simp [Function.comp, EvMap.get, List.lookup, hb]
+
+theorem addKeys_nodup (ks ts : List Nat) (h : ks.Nodup) : (addKeys ks ts).Nodup := by
+  unfold addKeys
+  induction ts generalizing ks with
+  | nil => simpa using h
+  | cons t r ih =>
+    simp only [List.foldl_cons]
+    apply ih
+    split
+    · exact h
+    · rename_i hn
+      exact List.nodup_append.mpr ⟨h, by simp, by intro a ha b hb; simp at hb; subst hb; exact fun hh => hn (hh ▸ ha)⟩
+
+/-- **the event list is computed track by track**: `matrix_to_events` equals, for rows without
+tempo changes, the per-track events (each track's rows in offset order) concatenated in order of
+first appearance, silent ones dropped, stably sorted by onset -/
+theorem matrixToEvents_per_track (rows : List Row) (tempo : Rat) (hn : NoTempo rows) :
+    matrixToEvents rows tempo =
+      sortByRat (·.offset)
+        (((addKeys [] ((sortByRat (·.offset) rows).map (·.track))).flatMap
+            (fun t => trackEvents tempo (sortByRat (·.offset) (rows.filter (fun r => r.track == t))))).filter
+          (fun e => !e.silence)) := by
+  unfold matrixToEvents
+  simp only
+  have hn' : NoTempo (sortByRat (·.offset) rows) := by
+    intro r hr
+    apply hn
+    -- membership is preserved by the insertion sort
+    have : ∀ (l : List Row) (x : Row), x ∈ sortByRat (·.offset) l → x ∈ l := by
+      intro l
+      induction l with
+      | nil => intro x hx; simpa [sortByRat] using hx
+      | cons a t ih =>
+        intro x hx
+        unfold sortByRat at hx ih
+        simp only [List.foldr_cons] at hx
+        rcases (mem_ins _ a x _).mp hx with rfl | hx
+        · simp
+        · exact List.mem_cons_of_mem _ (ih x hx)
+    exact this rows r hr
+  have hk := eventsLoop_keys (sortByRat (·.offset) rows) tempo [] hn'
+  have hnd : (keysOf (eventsLoop (sortByRat (·.offset) rows) tempo [])).Nodup := by
+    rw [hk]; exact addKeys_nodup _ _ (by simp [keysOf])
+  have hm := lookup_of_nodup _ hnd
+  congr 2
+  conv => lhs; rw [hm]
+  rw [hk]
+  simp only [keysOf, List.map_nil, List.map_map, List.flatMap]
+  congr 1
+  apply List.map_congr_left
+  intro t _
+  simp only [Function.comp]
+  rw [eventsLoop_get _ _ _ hn' t, sortByRat_filter]
+  rfl
+
+
+theorem sumRat_append (l1 l2 : List Rat) : sumRat (l1 ++ l2) = sumRat l1 + sumRat l2 := by
+  induction l1 with
+  | nil => simp [sumRat_nil]
+  | cons a t ih => simp only [List.cons_append, sumRat_cons, ih]; ring
+
+/-- a run of continuation rows extends the event that is open -/
+theorem fold_conts (tempo : Rat) (pre : List Event) (e : Event) (conts : List Row)
+    (hc : ∀ c ∈ conts, c.cont = true) :
+    conts.foldl (stepTrack tempo) (some (pre ++ [e]))
+      = some (pre ++ [{ e with dur := e.dur + sumRat (conts.map (fun c => c.dur * 60 / tempo)) }]) := by
+  induction conts generalizing e with
+  | nil => simp [sumRat_nil]
+  | cons c cs ih =>
+    have h1 : c.cont = true := hc c (by simp)
+    simp only [List.foldl_cons]
+    have : stepTrack tempo (some (pre ++ [e])) c = some (pre ++ [{ e with dur := e.dur + c.dur * 60 / tempo }]) := by
+      unfold stepTrack
+      simp [h1]
+    rw [this, ih _ (fun x hx => hc x (by simp [hx]))]
+    simp only [List.map_cons, sumRat_cons]
+    congr 3
+    simp only [Event.mk.injEq, true_and, and_true]
+    ring
+
+/-- **a sounding (or silent) row followed by its run of continuations is one event whose
+duration is extended by exactly the continuations' durations** (in seconds) -/
+theorem fold_note_conts (tempo : Rat) (r : Row) (conts rest : List Row) (st : Option (List Event))
+    (hr : r.cont = false) (hc : ∀ c ∈ conts, c.cont = true) :
+    (r :: (conts ++ rest)).foldl (stepTrack tempo) st
+      = rest.foldl (stepTrack tempo) (some (st.getD [] ++
+          [{ evOf tempo r with dur := r.dur * 60 / tempo + sumRat (conts.map (fun c => c.dur * 60 / tempo)) }])) := by
+  simp only [List.foldl_cons, List.foldl_append]
+  have : stepTrack tempo st r = some (st.getD [] ++ [evOf tempo r]) := by
+    unfold stepTrack; simp [hr]
+  rw [this, fold_conts tempo _ _ conts hc]
+  rfl
+
+/-- with a constant tempo the time in seconds is quarter notes × 60 / tempo, also for the
+extended duration: the total is the sum in quarter notes, converted once -/
+theorem seconds_of_quarters (tempo : Rat) (d : Rat) (ds : List Rat) :
+    d * 60 / tempo + sumRat (ds.map (fun x => x * 60 / tempo)) = (d + sumRat ds) * 60 / tempo := by
+  induction ds generalizing d with
+  | nil => simp [sumRat_nil]
+  | cons x xs ih =>
+    simp only [List.map_cons, sumRat_cons]
+    have := ih x
+    rw [this]; ring
+
+/-- an orphan continuation (nothing on the track yet) only produces a silent event -/
+theorem orphan_continuation_silent (tempo : Rat) (r : Row) (hr : r.cont = true) :
+    stepTrack tempo none r = some [{ evOf tempo r with silence := true }] := by
+  unfold stepTrack; simp [hr]
+
+theorem mapM_index {α β : Type} (f : α → Res β) (l : List α) (out : List β) (h : l.mapM f = .ok out) :
+    out.length = l.length ∧ ∀ j (hj : j < l.length) (hj' : j < out.length), f l[j] = .ok out[j] := by
+  induction l generalizing out with
+  | nil =>
+    simp only [List.mapM_nil, pure, Except.pure, Except.ok.injEq] at h
+    subst h; simp
+  | cons a t ih =>
+    simp only [List.mapM_cons, bind, Except.bind] at h
+    cases h1 : f a with
+    | error e => simp [h1] at h
+    | ok b =>
+      cases h2 : t.mapM f with
+      | error e => simp [h1, h2] at h
+      | ok bs =>
+        simp only [h1, h2, pure, Except.pure, Except.ok.injEq] at h
+        subst h
+        obtain ⟨i1, i2⟩ := ih bs h2
+        refine ⟨by simp [i1], ?_⟩
+        intro j hj hj'
+        cases j with
+        | zero => simpa using h1
+        | succ k => simpa using i2 k (by simpa using hj) (by simpa using hj')
+
+theorem filter_flatten_track (per : List (List Row)) (b : Nat)
+    (h : ∀ j (hj : j < per.length), ∀ r ∈ per[j], r.track = b + j) (i : Nat) :
+    (per.flatten).filter (fun r => r.track == b + i) = per.getD i [] := by
+  induction per generalizing b i with
+  | nil => simp
+  | cons p ps ih =>
+    simp only [List.flatten_cons, List.filter_append]
+    have hp : ∀ r ∈ p, r.track = b := by
+      intro r hr; have := h 0 (by simp) r (by simpa using hr); simpa using this
+    have hps : ∀ j (hj : j < ps.length), ∀ r ∈ ps[j], r.track = (b + 1) + j := by
+      intro j hj r hr
+      have := h (j + 1) (by simp; omega) r (by simpa using hr)
+      omega
+    cases i with
+    | zero =>
+      have h1 : p.filter (fun r => r.track == b + 0) = p := by
+        apply List.filter_eq_self.mpr
+        intro r hr; simp [hp r hr]
+      have h2 : (ps.flatten).filter (fun r => r.track == b + 0) = [] := by
+        apply List.filter_eq_nil_iff.mpr
+        intro r hr
+        obtain ⟨q, hq, hrq⟩ := List.mem_flatten.mp hr
+        obtain ⟨j, hj, rfl⟩ := List.mem_iff_getElem.mp hq
+        have := hps j hj r hrq
+        simp; omega
+      rw [h1, h2]; simp
+    | succ k =>
+      have h1 : p.filter (fun r => r.track == b + (k + 1)) = [] := by
+        apply List.filter_eq_nil_iff.mpr
+        intro r hr; have := hp r hr; simp; omega
+      have := ih (b + 1) hps k
+      have e : b + (k + 1) = b + 1 + k := by omega
+      rw [h1, e, this]; simp
+
+/-- **rendering = per-part denotation.**  For a score with non-negative durations and no tempo
+changes, `to_events(tempo)` is obtained part by part: the rows of part `i` (one per note, at the
+running sums of the durations, see `melody_rows`, `track_rows_sorted`) are folded by `stepTrack`
+(a note opens an event, directly following continuations extend it, a rest or an orphan
+continuation is silent — `fold_note_conts`, `orphan_continuation_silent`), silent events are
+dropped and the parts are merged in onset order. -/
+theorem render_eq_denote (s : Score) (tempo : Rat) (per : List (List Row)) (hnn : NonNeg s)
+    (hper : (trackList s).zipIdx.mapM (fun (t, i) => trackRows t i s 0 none) = .ok per)
+    (hnt : NoTempo per.flatten) :
+    toEvents s tempo = .ok (sortByRat (·.offset)
+      (((addKeys [] ((sortByRat (·.offset) per.flatten).map (·.track))).flatMap
+          (fun i => trackEvents tempo (per.getD i []))).filter (fun e => !e.silence))) := by
+  unfold toEvents getNotes
+  simp only [hper, bind, Except.bind, pure, Except.pure]
+  rw [matrixToEvents_per_track _ _ hnt]
+  obtain ⟨hlen, hidx⟩ := mapM_index _ _ _ hper
+  have hlen' : per.length = (trackList s).length := by simpa using hlen
+  have hrow : ∀ j (hj : j < per.length), SortedBy (·.offset) per[j] ∧ ∀ r ∈ per[j], r.track = 0 + j := by
+    intro j hj
+    have hj2 : j < (trackList s).zipIdx.length := by simpa using (hlen' ▸ hj)
+    have := hidx j hj2 hj
+    simp only [List.getElem_zipIdx] at this
+    obtain ⟨a, b⟩ := track_rows_sorted _ _ s 0 none _ hnn this
+    exact ⟨a, fun r hr => by simpa using (b r hr).2⟩
+  congr 3
+  congr 1
+  funext i
+  have hf := filter_flatten_track per 0 (fun j hj => (hrow j hj).2) i
+  simp only [Nat.zero_add] at hf
+  rw [hf]
+  congr 1
+  apply sortByRat_of_sorted
+  by_cases hi : i < per.length
+  · have : per.getD i [] = per[i] := by simp [List.getD_eq_getElem?_getD, hi]
+    rw [this]; exact (hrow i hi).1
+  · have : per.getD i [] = [] := by
+      have : per.length ≤ i := by omega
+      simp [List.getD_eq_getElem?_getD, List.getElem?_eq_none this]
+    rw [this]; simp [SortedBy]
+
+/-! ### flags, threading of the reference pitch, velocity, seconds -/
+
+/-- a rest is silent and leaves the reference pitch alone -/
+theorem rest_is_silent (n : Note) (c : Chord) (tr : Nat) (t : Rat) (last : Option Int) (row : Row)
+    (l' : Option Int) (hk : n.kind = .r) (h : noteToRow n c tr t last = .ok (row, l')) :
+    row.silence = true ∧ row.cont = false ∧ l' = last := by
+  obtain ⟨_, _, _, _, f5, f6, f7, _⟩ := noteToRow_fields n c tr t last row l' h
+  simp only [hk] at f5 f6
+  have h5 : row.silence = true := by rw [f5]; rfl
+  have h6 : row.cont = false := by rw [f6]; rfl
+  refine ⟨h5, h6, ?_⟩
+  rw [f7, h5]; rfl
+
+/-- a continuation with nothing to continue is silent; otherwise it is flagged as a
+continuation; in both cases the reference pitch is unchanged -/
+theorem continuation_row (n : Note) (c : Chord) (tr : Nat) (t : Rat) (last : Option Int) (row : Row)
+    (l' : Option Int) (hk : n.kind = .l) (h : noteToRow n c tr t last = .ok (row, l')) :
+    (last = none → row.silence = true ∧ row.cont = false) ∧
+    (last ≠ none → row.silence = false ∧ row.cont = true) ∧ l' = last := by
+  obtain ⟨_, _, _, _, f5, f6, f7, _⟩ := noteToRow_fields n c tr t last row l' h
+  simp only [hk] at f5 f6
+  cases last with
+  | none =>
+    have h5 : row.silence = true := by rw [f5]; rfl
+    refine ⟨fun _ => ⟨h5, by rw [f6]; rfl⟩, fun hh => absurd rfl hh, ?_⟩
+    rw [f7, h5]; rfl
+  | some lp =>
+    have h6 : row.cont = true := by rw [f6]; rfl
+    have h5 : row.silence = false := by rw [f5]; rfl
+    refine ⟨fun hh => (Option.some_ne_none _ hh).elim, fun _ => ⟨h5, h6⟩, ?_⟩
+    rw [f7, h5, h6]; rfl
+
+/-- any other note sounds with its chord-relative pitch (relative kinds measured from the
+reference pitch, 0 when there is none) and becomes the new reference -/
+theorem sounding_row (n : Note) (c : Chord) (tr : Nat) (t : Rat) (last : Option Int) (row : Row)
+    (l' : Option Int) (hk : n.kind ≠ .r ∧ n.kind ≠ .l) (h : noteToRow n c tr t last = .ok (row, l')) :
+    row.silence = false ∧ row.cont = false ∧ l' = some row.pitch ∧
+    ∃ p, noteToPitch c n (last.getD 0) = .ok p ∧ row.pitch = p.getD 0 := by
+  obtain ⟨_, _, _, _, f5, f6, f7, f8⟩ := noteToRow_fields n c tr t last row l' h
+  have h5 : row.silence = false := by
+    rw [f5]; cases hkk : n.kind <;> simp_all
+  have h6 : row.cont = false := by
+    rw [f6]; cases hkk : n.kind <;> simp_all
+  refine ⟨h5, h6, ?_, f8⟩
+  rw [f7, h5, h6]; rfl
+
+/-- **the reference pitch survives rests and continuations** -/
+theorem last_survives_rests (m : Melody) (c : Chord) (tr : Nat) (t : Rat) (last : Option Int)
+    (rows : List Row) (l' : Option Int) (hm : ∀ n ∈ m, n.kind = .r ∨ n.kind = .l)
+    (h : melodyToRows m c tr t last = .ok (rows, l')) : l' = last := by
+  induction m generalizing t last rows l' with
+  | nil =>
+    simp only [melodyToRows, pure, Except.pure, Except.ok.injEq, Prod.mk.injEq] at h
+    exact h.2.symm
+  | cons n ns ih =>
+    unfold melodyToRows at h
+    cases h1 : noteToRow n c tr t last with
+    | error e => simp [h1, bind, Except.bind] at h
+    | ok v =>
+      obtain ⟨row, l1⟩ := v
+      cases h2 : melodyToRows ns c tr (t + n.dur) l1 with
+      | error e => simp [h1, h2, bind, Except.bind] at h
+      | ok w =>
+        obtain ⟨rs, l2⟩ := w
+        simp only [h1, h2, bind, Except.bind, pure, Except.pure, Except.ok.injEq, Prod.mk.injEq] at h
+        obtain ⟨_, rfl⟩ := h
+        have hl1 : l1 = last := by
+          rcases hm n (by simp) with hk | hk
+          · exact (rest_is_silent n c tr t last row l1 hk h1).2.2
+          · exact (continuation_row n c tr t last row l1 hk h1).2.2
+        rw [ih (t + n.dur) l1 rs l2 (fun x hx => hm x (by simp [hx])) h2, hl1]
+
+/-- **a part missing from a chord is silent for that chord** (no rows), the time advances by the
+chord's duration and the reference pitch is forgotten -/
+theorem absent_part_silent (track : String) (idx : Nat) (c : Chord) (cs : Score) (t : Rat)
+    (last : Option Int) (h : c.parts.lookup track = none) :
+    trackRows track idx (c :: cs) t last = trackRows track idx cs (t + c.dur) none := by
+  rw [trackRows]; simp only [h]
+
+/-- chords follow one another: the rows of a later chord start after the chord's duration -/
+theorem chord_rows_then_rest (track : String) (idx : Nat) (c : Chord) (cs : Score) (t : Rat)
+    (last : Option Int) (part : Melody) (rows : List Row) (h : c.parts.lookup track = some part)
+    (hr : trackRows track idx (c :: cs) t last = .ok rows) :
+    ∃ rc l1 rest, melodyToRows part c idx t last = .ok (rc, l1) ∧
+      trackRows track idx cs (t + c.dur) l1 = .ok rest ∧ rows = rc ++ rest := by
+  rw [trackRows] at hr
+  simp only [h] at hr
+  cases h1 : melodyToRows part c idx t last with
+  | error e => simp [h1, bind, Except.bind] at hr
+  | ok v =>
+    obtain ⟨rc, l1⟩ := v
+    cases h2 : trackRows track idx cs (t + c.dur) l1 with
+    | error e => simp [h1, h2, bind, Except.bind] at hr
+    | ok rest =>
+      simp only [h1, h2, bind, Except.bind, pure, Except.pure, Except.ok.injEq] at hr
+      exact ⟨rc, l1, rest, rfl, h2, hr.symm⟩
+
+/-- **seconds = quarter notes × 60 / tempo, velocity = amplitude** (as an integer) -/
+theorem events_seconds (tempo : Rat) (r : Row) :
+    (evOf tempo r).offset = r.offset * 60 / tempo ∧ (evOf tempo r).dur = r.dur * 60 / tempo ∧
+    (evOf tempo r).vel = r.vel.floor ∧ (evOf tempo r).pitch = r.pitch ∧ (evOf tempo r).silence = r.silence :=
+  ⟨rfl, rfl, rfl, rfl, rfl⟩
+
+/-! ### non-vacuity -/
+
+/-- `(I % I.M)(piano__0 = s0.h + l.h + s1, violin__0 = r + s4)` followed by a chord without violin -/
+def demo : Score :=
+  [{ elem := 0, parts := [("piano__0", [{ kind := .s, val := 0, oct := 0, dur := 2 }, { kind := .l, val := 0, oct := 0, dur := 2 },
+                                          { kind := .s, val := 1, oct := 0, dur := 1 }]),
+                           ("violin__0", [{ kind := .r, val := 0, oct := 0, dur := 1 }, { kind := .s, val := 4, oct := 0, dur := 1 }])] },
+   { elem := 4, parts := [("piano__0", [{ kind := .l, val := 0, oct := 0, dur := 1 }, { kind := .su, val := 1, oct := 0, dur := 1 }])] }]
+
+example : NonNeg demo := by
+  intro c hc p hp n hn
+  simp [demo] at hc
+  rcases hc with rfl | rfl <;> simp at hp <;> (try rcases hp with rfl | rfl) <;> simp at hn <;>
+    (try rcases hn with rfl | rfl | rfl) <;> (try rcases hn with rfl | rfl) <;> decide
+example : toEvents demo 120 = .ok
+    [⟨0, 0, 2, 66, 0, false⟩, ⟨7, 1/2, 1/2, 66, 1, false⟩, ⟨2, 2, 1, 66, 0, false⟩, ⟨4, 3, 1/2, 66, 0, false⟩] := by
+  decide +kernel
+
 end MV.C03
